@@ -276,6 +276,15 @@ def _split_parallel(fn) -> int:
                     i += len(new)
                     done += 1
                     continue
+            # `a[i], b[j] = x, y` with plain names / constants on the right: the right-hand values are fixed before the first
+            # store, and a store into a subscript or attribute cannot rebind a name - the stores then happen left to right,
+            # each evaluating its own target expression, exactly like separate statements
+            if isinstance(st, ast.Assign) and len(st.targets) == 1 and isinstance(st.targets[0], (ast.Tuple, ast.List)) and isinstance(st.value, (ast.Tuple, ast.List)) and len(st.targets[0].elts) == len(st.value.elts) and all(isinstance(t, (ast.Subscript, ast.Attribute)) for t in st.targets[0].elts) and all(isinstance(v, (ast.Name, ast.Constant)) for v in st.value.elts):
+                new = [ast.copy_location(ast.Assign(targets=[t], value=v, lineno=st.lineno), st) for t, v in zip(st.targets[0].elts, st.value.elts)]
+                blk[i : i + 1] = new
+                i += len(new)
+                done += 1
+                continue
             i += 1
     return done
 
@@ -534,6 +543,87 @@ def _lower_genexp_loops(fn) -> int:
     return done
 
 
+def _fold_bound_aliases(fn) -> int:
+    """`add = seen.add` ... `add(x)`  ->  `seen.add(x)`; `w_of = self._weights.__getitem__` ... `w_of(k)` -> `self._weights[k]`.
+    Region by region: after `name = <attribute of an object>` the rest of the same block calls `name(...)`; when neither the name
+    nor the object it was taken from is re-assigned in that rest, calling the local is calling that attribute of the same
+    object.  Only calls are rewritten; the binding stays."""
+    import copy as _copy
+
+    def root(e):
+        while isinstance(e, ast.Attribute):
+            e = e.value
+        return e if isinstance(e, ast.Name) else None
+
+    done = 0
+    for blk in _blocks(fn):
+        for i, st in enumerate(blk):
+            if not (isinstance(st, ast.Assign) and len(st.targets) == 1 and isinstance(st.targets[0], ast.Name) and isinstance(st.value, ast.Attribute)):
+                continue
+            name, target = st.targets[0].id, st.value
+            r = root(target)
+            if r is None:
+                continue
+            if not (target.attr.startswith("__") or target.attr in _METHODISH or isinstance(target.value, ast.Name)):
+                continue  # (a data attribute read early is a snapshot, not an alias)
+            region = blk[i + 1 :]
+            if not region:
+                continue
+            # nothing in the rest of the block re-assigns the alias, the object, or an attribute on the chain
+            chain = set()
+            e = target.value
+            while isinstance(e, ast.Attribute):
+                chain.add(norm_(e))
+                e = e.value
+            clobbered = False
+            for s2 in region:
+                for n in ast.walk(s2):
+                    if isinstance(n, ast.Name) and isinstance(n.ctx, (ast.Store, ast.Del)) and n.id in (name, r.id):
+                        clobbered = True
+                    if isinstance(n, ast.Attribute) and isinstance(n.ctx, (ast.Store, ast.Del)) and norm_(n) in chain:
+                        clobbered = True
+            # a loop around the block may bring a later re-assignment of the object back in front of the calls
+            if clobbered:
+                continue
+            holder_loops = [n for n in ast.walk(fn) if isinstance(n, (ast.For, ast.While)) and any(st is y for y in ast.walk(n))]
+            if any(isinstance(n, ast.Name) and isinstance(n.ctx, (ast.Store, ast.Del)) and n.id == r.id and n is not st.targets[0] for lp in holder_loops for n in ast.walk(lp)):
+                continue
+
+            class R(ast.NodeTransformer):
+                def visit_Call(self, n):
+                    nonlocal done
+                    self.generic_visit(n)
+                    if isinstance(n.func, ast.Name) and n.func.id == name:
+                        if target.attr == "__getitem__" and len(n.args) == 1 and not n.keywords:
+                            done += 1
+                            return ast.copy_location(ast.Subscript(value=_copy.deepcopy(target.value), slice=n.args[0], ctx=ast.Load()), n)
+                        if target.attr == "__contains__" and len(n.args) == 1 and not n.keywords:
+                            done += 1
+                            return ast.copy_location(ast.Compare(left=n.args[0], ops=[ast.In()], comparators=[_copy.deepcopy(target.value)]), n)
+                        done += 1
+                        n.func = ast.copy_location(_copy.deepcopy(target), n.func)
+                    return n
+
+                def visit_FunctionDef(self, n):
+                    return n  # (a nested function may run later, when the object has been rebound)
+
+                visit_AsyncFunctionDef = visit_Lambda = visit_FunctionDef
+
+            for s2 in region:
+                R().visit(s2)
+    return done
+
+
+_METHODISH = {
+    "append", "extend", "add", "update", "remove", "discard", "pop", "get", "setdefault", "keys", "values", "items", "insert", "clear", "index", "count", "copy",
+    "popleft", "appendleft", "union", "intersection", "difference", "issubset", "issuperset", "sort", "write", "transform", "inverse_transform",
+}
+
+
+def norm_(e) -> str:
+    return ast.unparse(e)
+
+
 def _module_tables(tree):
     """module-level `NAME = {<const>: <expr>, ...}` displays that are assigned once and never written to afterwards"""
     out = {}
@@ -605,6 +695,7 @@ def canonicalise(tree: ast.Module) -> ast.Module:
             if not _lower_match(fn):  # (nested match statements: inner ones appear after the outer one was lowered)
                 break
         _split_parallel(fn)
+        _fold_bound_aliases(fn)
         _lower_genexp_loops(fn)
         _lbyl(fn)
         # folding one flag can make the next one adjacent to its `if`
